@@ -16,6 +16,8 @@ THEOREMS = [
     "C13_kmeans_empty_cluster_keeps_centroid",
     "C13_kmeans_safe_count",
     "C13_state_variances_ge_floor",
+    "C13_resp_normalisation_is_identity",
+    "C13_counts_sum_to_samples",
 ]
 CORR_OPS = ["kmeans_iter:degenerate", "kmeans_vw:degenerate", "gmm_mstep_ml:degenerate"]
 RULE = ("degenerate training sets: duplicated rows, a constant column, fewer distinct points than components, a far outlier, a "
@@ -59,6 +61,27 @@ def degenerate(ctx, i):
         sc_ = float(10.0 ** r.choice([-4.0, 4.0]))
         x, cent = x * sc_, cent * sc_
     return dict(kind=kind, K=K, D=D, x=x, cent=cent, sizes=gen.random_composition(r, N))
+
+
+def narrow_scenario(r):
+    """finite training data in a narrower float type: half-precision features of ordinary size (a few hundred rows around 300: their
+    sum, and every square, is beyond the largest float16), or single-precision features with one far but finite outlier (its
+    square is beyond the largest float32).  The statistics of such data are ordinary double-precision numbers."""
+    K, D = 2, int(r.integers(1, 3))
+    if r.random() < 0.5:
+        N = int(r.integers(500, 700))
+        centers = np.array([[280.0] * D, [330.0] * D])
+        x = (centers[r.integers(0, K, N)] + 8.0 * r.normal(size=(N, D))).astype(np.float16)
+        cent = centers + r.normal(size=(K, D))
+        kind = "float16"
+    else:
+        N = int(r.integers(12, 30))
+        centers = r.normal(0, 3, (K, D))
+        x = (centers[r.integers(0, K, N)] + 0.5 * r.normal(size=(N, D))).astype(np.float32)
+        x[0] = np.float32(10.0 ** r.uniform(19.5, 25))
+        cent = centers + 0.1 * r.normal(size=(K, D))
+        kind = "float32-outlier"
+    return dict(kind=kind, K=K, D=D, x=x, x_dtype=str(x.dtype), cent=cent, sizes=gen.random_composition(r, N))
 
 
 def finite_tree(obj):
@@ -123,15 +146,27 @@ def correspondence(ctx):
     return bad
 
 
-def check_gmm(g, x, what, thr_count=None):
+KNOWN_SIG = "far-outlier-responsibilities-sum-to-the-number-of-tied-components"
+
+
+def check_gmm(g, x, what, thr_count=None, start=None):
+    """`start`: the machine training started from; if its own statistics of the data already count a sample more than once (D26:
+    a sample further than ~2^53 component spacings from every Gaussian), weights off the simplex are that known finding"""
     w, m, v = np.asarray(g.weights, float), np.asarray(g.means, float), np.asarray(g.variances, float)
     if not (np.all(np.isfinite(w)) and np.all(np.isfinite(m)) and np.all(np.isfinite(v))):
         return {"sig": "non-finite-gmm-parameters", "what": f"{what}: weights {w.tolist()} means {m.tolist()} variances {v.tolist()}"}
     if np.any(w < 0):
         return {"sig": "negative-gmm-weight", "what": f"{what}: {w.tolist()}"}
     slack = 0 if thr_count is None else len(w) * thr_count / max(1, len(x))
+    known = None
     if not (1 - 1e-9 <= w.sum() <= 1 + slack + 1e-9):
-        return {"sig": "gmm-weights-off-simplex", "what": f"{what}: sum = {w.sum()} (allowed up to 1 + {slack})"}
+        n0 = core.impl(lambda: float(np.sum(np.asarray(start.acc_stats(x).n, float)))) if start is not None else None
+        if isinstance(n0, float) and n0 - len(x) > 0.5 and abs(n0 - round(n0)) < 1e-6:
+            known = {"sig": KNOWN_SIG, "what": f"{what}: weights sum to {w.sum()}; the E-step of the starting model counts {n0} samples in {len(x)} rows: a row whose distance to every "
+                     "Gaussian exceeds ~2^53 component spacings has the same log-likelihood under several components, log(number of tied terms) is lost in the rounding of "
+                     "its total log-likelihood, and exp(lwl - ll) = 1 for each of them"}
+        else:
+            return {"sig": "gmm-weights-off-simplex", "what": f"{what}: sum = {w.sum()} (allowed up to 1 + {slack})"}
     thr = np.broadcast_to(np.asarray(g.variance_thresholds, float), v.shape)
     if np.any(v < thr) or np.any(v <= 0):
         return {"sig": "gmm-variance-below-floor", "what": f"{what}: {v.tolist()} floors {thr.tolist()}"}
@@ -143,14 +178,14 @@ def check_gmm(g, x, what, thr_count=None):
     lld = core.impl(lambda: np.asarray(g.log_likelihood(da.from_array(x_, chunks=(max(1, len(x_) // 2), x_.shape[1]))), float))
     if isinstance(lld, core.ImplError) or not np.all(np.isfinite(lld)):
         return {"sig": "non-finite-log-likelihood", "what": f"{what}, scored from a Dask array: {lld!r} (NumPy: {ll.tolist()})"}
-    return None
+    return known
 
 
 def oracle(sc, trainer, switches=(True, True, True), steps=3, dask=False, floors_late=None, alpha_arr=None):
     import dask.array as da
     from bob.learn.em import GMMMachine, KMeansMachine
 
-    x = np.asarray(sc["x"], float)
+    x = np.asarray(sc["x"]).astype(sc.get("x_dtype", "float64"))  # training sees the array in the dtype it was handed over in
     cent = np.asarray(sc["cent"], float)
     K, D = cent.shape
     xin = da.from_array(x, chunks=(tuple(sc["sizes"]), D)) if dask else x
@@ -191,7 +226,7 @@ def oracle(sc, trainer, switches=(True, True, True), steps=3, dask=False, floors
     if isinstance(r, core.ImplError):
         return {"sig": "gmm-fit-raises", "what": f"{trainer}: {r!r}"}
     return check_gmm(g, x, f"GMM {trainer} on '{sc['kind']}' data, switches {switches}, {steps} steps" + ("" if floors_late is None else ", floors raised after the variances were set"),
-                     gen.EPS if trainer == "ml" else None)
+                     gen.EPS if trainer == "ml" else None, start=ubm)
 
 
 def ivector_oracle(ctx, i):
@@ -208,6 +243,9 @@ def search(ctx):
     for i in range(ctx.budget(60, 600)):
         sc = degenerate(ctx, i)
         trainer = trainers[(i // len(KINDS)) % len(trainers)]
+        if ctx.rng.random() < 0.1:
+            sc = narrow_scenario(ctx.rng)
+            trainer = ["ml", "map"][i % 2]  # (k-means sums the data in the data's own type: NumPy's semantics, C06 / C20)
         sw = SWITCHES[1 + int(ctx.rng.integers(0, 7))]
         dask = bool(ctx.rng.random() < 0.33)
         ctx.count(f"search:{trainer}:{sc['kind']}")
@@ -218,7 +256,7 @@ def search(ctx):
         f = oracle(sc, trainer, sw, steps=steps, dask=dask, floors_late=late, alpha_arr=alpha_arr)
         if f and f["sig"] not in seen:
             seen.add(f["sig"])
-            f["input"] = {**{k: sc[k] for k in ("kind", "K", "D", "x", "cent", "sizes")}, "trainer": trainer, "switches": list(sw), "steps": steps, "dask": dask, "floors_late": late, "alpha_arr": alpha_arr}
+            f["input"] = {**{k: sc[k] for k in ("kind", "K", "D", "x", "x_dtype", "cent", "sizes") if k in sc}, "trainer": trainer, "switches": list(sw), "steps": steps, "dask": dask, "floors_late": late, "alpha_arr": alpha_arr}
             fails.append(f)
     for i in range(ctx.budget(6, 60)):
         f = ivector_oracle(ctx, i)
